@@ -694,7 +694,8 @@ class Evaluator:
     def subscript_hook(self, base, sl, st, node):
         if isinstance(base, VList) and base.nd and base.width is None and isinstance(sl, VTuple) and len(sl.items) == 2 and isinstance(sl.items[0], VSlice) \
                 and all(isinstance(x, VNone) for x in (sl.items[0].start, sl.items[0].stop, sl.items[0].step)) \
-                and (isinstance(sl.items[1], VNone) or (isinstance(sl.items[1], VFunc) and sl.items[1].name == 'np.newaxis')):
+                and (isinstance(sl.items[1], VNone) or (isinstance(sl.items[1], VFunc) and sl.items[1].name == 'np.newaxis')) \
+                and st.heap.lists[base.ref].etype in ('int', 'real', 'bool'):
             from .mat import VCol
             return VCol(base)
         # P[:, c] on an array whose rows are fixed-width tuples of numbers (e.g. channel positions): column c as a 1-D array
